@@ -1,81 +1,37 @@
 package main
 
 import (
-	"context"
 	"encoding/json"
 	"fmt"
 	"os"
-	"time"
-
-	"github.com/sharedcode/sop"
 
 	"verif/harness/hx"
+	"verif/harness/protox"
 	"verif/harness/sopx"
 )
 
 func main() {
-	if len(os.Args) > 1 {
+	if len(os.Args) > 1 && os.Args[1] != "run" {
 		hx.Main("probe", nil)
 	}
-	ctx := context.Background()
-	dir := "/var/tmp/probe1"
-	os.RemoveAll(dir)
-	e, _ := sopx.NewEnv(dir, 2)
-	run := func(label string, f func(t *sopx.Txn) error) {
-		t, err := e.NewTxn(ctx, sop.ForWriting, time.Minute, label, false)
-		if err != nil {
-			panic(err)
+	root := "/var/tmp/probe2"
+	os.RemoveAll(root)
+	os.MkdirAll(root, 0o755)
+	st := []sopx.StoreOpts{{Name: "st1", Slot: 4, Unique: true}}
+	folder := root + "/db"
+	run := func(label string, ops []protox.Op) {
+		out, err := protox.RunTxn(&protox.ChildIn{Folder: folder, HashMod: 2, Stores: st, Txn: protox.TxnSpec{Ops: ops, End: "commit", Fault: protox.Fault{Index: -1}}, Label: label}, root)
+		fmt.Println(label, err, out.EndErr, out.OpResults)
+		for _, ev := range out.Events {
+			if ev.Iface == "blob" || ev.Iface == "reg" {
+				b, _ := json.Marshal(ev)
+				fmt.Println("   ", string(b))
+			}
 		}
-		t.Begin(ctx)
-		if err := f(t); err != nil {
-			fmt.Println("ops err", err)
-		}
-		e.Rec.Reset()
-		e.Rec.Arm()
-		err = t.Commit(ctx)
-		e.Rec.Disarm()
-		fmt.Println("=== ", label, "commit:", err)
-		for _, ev := range e.Rec.Snapshot() {
-			b, _ := json.Marshal(ev)
-			fmt.Println(string(b))
-		}
+		rep := protox.Orphans(folder)
+		fmt.Println("   orphans:", rep.Problems, "blobs", rep.Blobs, "valueblobs", rep.ValueBlobs)
 	}
-	o := sopx.StoreOpts{Name: "s1", Slot: 4, Unique: true, InNode: true}
-	run("t1", func(t *sopx.Txn) error {
-		b, err := t.NewStore(ctx, o)
-		if err != nil {
-			return err
-		}
-		for i := 0; i < 3; i++ {
-			b.Add(ctx, i, fmt.Sprint("v", i))
-		}
-		return nil
-	})
-	run("t2", func(t *sopx.Txn) error {
-		b, err := t.OpenStore(ctx, "s1")
-		if err != nil {
-			return err
-		}
-		for i := 3; i < 12; i++ {
-			b.Add(ctx, i, fmt.Sprint("v", i))
-		}
-		return nil
-	})
-	run("t3", func(t *sopx.Txn) error {
-		b, err := t.OpenStore(ctx, "s1")
-		if err != nil {
-			return err
-		}
-		for i := 0; i < 9; i++ {
-			b.Remove(ctx, i)
-		}
-		return nil
-	})
-	d := sopx.DumpFresh(dir, 2, true)
-	b, _ := json.Marshal(d)
-	fmt.Println(string(b))
-	raw, _ := sopx.ReadRaw(dir)
-	for n, s := range raw.Stores {
-		fmt.Println(n, len(s.Handles), len(s.Blobs), s.Info.Count, raw.TLogs, raw.PLogs, raw.Other)
-	}
+	run("t0", []protox.Op{{Store: 0, Kind: "add", Key: 1, Val: "a"}, {Store: 0, Kind: "add", Key: 2, Val: "b"}, {Store: 0, Kind: "add", Key: 3, Val: "c"}})
+	run("t1", []protox.Op{{Store: 0, Kind: "rem", Key: 2}})
+	run("t2", []protox.Op{{Store: 0, Kind: "upd", Key: 1, Val: "zz"}})
 }
